@@ -126,6 +126,18 @@ structure FiveCards (cs : List Card) : Prop where
   nodup : cs.Nodup
   known : ∀ c ∈ cs, c.rank < 13 ∧ c.suit < 4
 
+theorem all_known_of_lt {cs : List Card} (h : ∀ c ∈ cs, c.rank < 13 ∧ c.suit < 4) : cs.all Card.known = true := by
+  rw [List.all_eq_true]
+  intro c hc
+  obtain ⟨h1, h2⟩ := h c hc
+  unfold Card.known Card.isUnknown Rank.unknown Suit.unknown
+  have e1 : (c.rank == 13) = false := by rw [beq_eq_false_iff_ne]; exact Nat.ne_of_lt h1
+  have e2 : (c.suit == 4) = false := by rw [beq_eq_false_iff_ne]; exact Nat.ne_of_lt h2
+  simp [e1, e2]
+
+theorem FiveCards.allKnown {cs : List Card} (h : FiveCards cs) : cs.all Card.known = true :=
+  all_known_of_lt h.known
+
 theorem card_ext {c d : Card} (h1 : c.rank = d.rank) (h2 : c.suit = d.suit) : c = d := by
   cases c; cases d; simp_all
 
@@ -261,6 +273,7 @@ theorem accept_of_check (T : Tables) (l : LookupId) (t : Lookup) (hT : T.tbl l =
     (spec : List Rank → Bool → List Nat) (lab : List Nat → Nat) (sigs : List Sig)
     (hok : tableOk t spec lab sigs = true)
     (ht : HandType) (hl : ht.lookup = l) (a b : List Card)
+    (hka : a.all Card.known = true) (hkb : b.all Card.known = true)
     (hra : l.rainbow = false ∨ areRainbow a = true) (hrb : l.rainbow = false ∨ areRainbow b = true)
     (ra : List Rank) (hpa : ra.Perm (a.map (·.rank))) (hma : (ra, areSuited a) ∈ sigs)
     (hsa : spec ra (areSuited a) = spec (a.map (·.rank)) (areSuited a))
@@ -282,10 +295,10 @@ theorem accept_of_check (T : Tables) (l : LookupId) (t : Lookup) (hT : T.tbl l =
   refine ⟨⟨a, e1⟩, ⟨b, e2⟩, ?_, ?_, hlab, hlt, heq⟩
   · unfold mkHand hasEntry getEntry
     rw [hl, hga, hT]
-    simp [Lookup.contains_of_get he1, he1]
+    simp [Lookup.contains_of_get he1, he1, hka]
   · unfold mkHand hasEntry getEntry
     rw [hl, hgb, hT]
-    simp [Lookup.contains_of_get he2, he2]
+    simp [Lookup.contains_of_get he2, he2, hkb]
 
 /-- the same for `get_entry_or_none` (the opening lookups are consulted through it) -/
 theorem entry_of_check (T : Tables) (l : LookupId) (t : Lookup) (hT : T.tbl l = t)
